@@ -4902,6 +4902,15 @@ fn eval_assert(
         None => None,
     };
 
+    // If the assertion fails, put back everything we popped, so the
+    // assertion can be resumed.
+    let mut saved_values = vec![];
+    if let Some((lhs_value, _, rhs_value)) = &subexpr_values {
+        saved_values.push(lhs_value.clone());
+        saved_values.push(rhs_value.clone());
+    }
+    saved_values.push(receiver_value.clone());
+
     if let Some(b) = receiver_value.as_rust_bool() {
         if !b {
             let message = match subexpr_values {
@@ -4932,7 +4941,7 @@ fn eval_assert(
             };
 
             return Err((
-                RestoreValues(vec![receiver_value]),
+                RestoreValues(saved_values),
                 EvalError::AssertionFailed(recv_expr.position.clone(), ErrorMessage(message)),
             ));
         }
@@ -4945,7 +4954,7 @@ fn eval_assert(
             env,
         );
         return Err((
-            RestoreValues(vec![receiver_value]),
+            RestoreValues(saved_values),
             EvalError::Exception(ExceptionInfo {
                 position: recv_expr.position.clone(),
                 message,
